@@ -292,12 +292,14 @@ def run_traces(ctx, X):
     if nmodels < 20:
         raise Machinery('too few models generated')
     nbad_total = 0
+    allbad = set()
     for chunk, (accepted, bad, res) in validate_chunks(events):
         ctx.add_tlc('trace-atmosphere', res, counts=False)
         if res.postcondition_false and not bad:
             raise Machinery('trace spec did not consume the whole trace:\n' + res.out[-1500:])
         badids = {b['id']: b for b in bad}
         nbad_total += len(badids)
+        allbad |= set(badids)
         for e in chunk:
             pkind, n, f = meta[e['id']]
             why = set(badids[e['id']]['why']) if e['id'] in badids else set()
@@ -327,26 +329,39 @@ def run_traces(ctx, X):
              % (nmodels, len(events), sum(1 for e in events if e['ev'] == 'step'), skipped))
     ctx.add_sample(dict(trace_event=next(e for e in events if e['ev'] == 'step')))
     ctx.add_sample(dict(trace_event=next(e for e in events if e['ev'] == 'profiles')))
-    run_canaries(events)
+    run_canaries(events, allbad)
 
 
-def run_canaries(events):
+def run_canaries(events, allbad):
     """Corrupt one logged field of accepted events; TLC must reject exactly those."""
+    good = [e for e in events if e['id'] not in allbad]
+    if len(good) < len(events) // 2:
+        good = events      # most events already rejected (reported above): only require rejection of the corrupted ones
+    events = good
     steps = [e for e in events if e['ev'] == 'step' and all(e[k][0] > 0 for k in ('H', 'g', 'z1', 'dz', 'rho', 'mu', 'T'))]
     profs = [e for e in events if e['ev'] == 'profiles' and e['src'] == 'generate_profiles']
     levs = [e for e in events if e['ev'] == 'levels' and e['kind'] == 'simple' and e['n'] >= 2]
-    if not steps or not profs or not levs:
+    if (not steps or not profs or not levs) and not allbad:
         raise Machinery('no events available for the canaries')
-    can = []
-    a = dict(steps[len(steps) // 2]); a['dz'] = [a['dz'][0] + 2000, a['dz'][1]]; a['id'] = 'canary-dz'; can.append(a)
-    b = dict(steps[len(steps) // 3]); b['g'] = [b['g'][0] - 3000, b['g'][1]]; b['id'] = 'canary-g'; can.append(b)
-    c = dict(profs[0]); c['lens'] = dict(c['lens'], gravity_profile=c['n'] + 1); c['id'] = 'canary-len'; can.append(c)
-    d = dict(levs[0]); d['lay'] = [list(x) for x in d['lay']]; d['lay'][0][0] += 5000; d['id'] = 'canary-geo'; can.append(d)
-    g = dict(steps[0]); g['id'] = 'canary-good'; can.append(g)
+    can, want = [], []
+    if steps:
+        a = dict(steps[len(steps) // 2]); a['dz'] = [a['dz'][0] + 2000, a['dz'][1]]; a['id'] = 'canary-dz'; can.append(a)
+        b = dict(steps[len(steps) // 3]); b['g'] = [b['g'][0] - 3000, b['g'][1]]; b['id'] = 'canary-g'; can.append(b)
+        want += ['canary-dz', 'canary-g']
+        if steps[0]['id'] not in allbad:
+            g = dict(steps[0]); g['id'] = 'canary-good'; can.append(g)
+    if profs:
+        c = dict(profs[0]); c['lens'] = dict(c['lens'], gravity_profile=c['n'] + 1); c['id'] = 'canary-len'; can.append(c)
+        want.append('canary-len')
+    if levs:
+        d = dict(levs[0]); d['lay'] = [list(x) for x in d['lay']]; d['lay'][0][0] += 5000; d['id'] = 'canary-geo'; can.append(d)
+        want.append('canary-geo')
+    if not can:
+        return
     ok, bad, res = validate_trace('Trace_Atmosphere', 'Trace_Atmosphere.cfg', can)
     got = sorted(x['id'] for x in bad)
-    if got != ['canary-dz', 'canary-g', 'canary-geo', 'canary-len']:
-        raise Machinery('canary: expected the four corrupted events to be rejected, TLC rejected %r' % got)
+    if got != sorted(want):
+        raise Machinery('canary: expected the corrupted events %r to be rejected, TLC rejected %r' % (sorted(want), got))
 
 
 # --------------------------------------------------------------------------- entry points
